@@ -506,6 +506,19 @@ def Relabelled (g : Graph) (ord : List Nat) (g' : Graph) : Prop :=
   ∀ x ∈ ord, ∃ atomX arr, g[x]? = some atomX ∧ (∀ q, arr = some q → q ∈ ord ∧ ∃ back, bondsTo atomX.bonds q = [back]) ∧
     g'[pos ord x]? = some ⟨enteredKind arr atomX, (arrivalFirst arr atomX.bonds).map (fun b => ⟨b.kind, pos ord b.tid⟩)⟩
 
+/-- the same with the arrival atom pinned down: it was visited before the atom it leads to (so a component root, which is
+    bonded to nothing visited before it, has none: `Lemmas/OrderL.lean`) -/
+def RelabelledP (g : Graph) (ord : List Nat) (g' : Graph) : Prop :=
+  g'.length = ord.length ∧
+  ∀ x ∈ ord, ∃ atomX arr, g[x]? = some atomX ∧
+    (∀ q, arr = some q → (q ∈ ord ∧ pos ord q < pos ord x) ∧ ∃ back, bondsTo atomX.bonds q = [back]) ∧
+    g'[pos ord x]? = some ⟨enteredKind arr atomX, (arrivalFirst arr atomX.bonds).map (fun b => ⟨b.kind, pos ord b.tid⟩)⟩
+
+theorem RelabelledP.relabelled {g : Graph} {ord : List Nat} {g' : Graph} (h : RelabelledP g ord g') : Relabelled g ord g' :=
+  ⟨h.1, fun x hx => by
+    obtain ⟨atomX, arr, h1, h2, h3⟩ := h.2 x hx
+    exact ⟨atomX, arr, h1, fun q hq => ⟨(h2 q hq).1.1, (h2 q hq).2⟩, h3⟩⟩
+
 /-- RTC for forests: building from the events of the traversal of a well-formed graph, when the traversal
     meets no ring closure, gives the graph renumbered in visit order with every arrival bond first. -/
 theorem rtc_forest (g : Graph) (hw : WellFormed g) (es : List (Event × Nat)) (ord : List Nat)
